@@ -196,6 +196,9 @@ bool GaussianMixture::augmentWithNoise(const Eigen::Ref<const Eigen::MatrixXd>& 
     if (noise_covariance_matrix.rows() != noise_covariance_matrix.cols())
         return false;
 
+    /* The argument may refer to (a block of) the storage that is reallocated below. */
+    const MatrixXd noise_covariance = noise_covariance_matrix;
+
     /* Size of the covariance of each component before this augmentation
        (it includes the noise of previous augmentations, if any). */
     const std::size_t dim_old = dim_covariance;
@@ -236,7 +239,7 @@ bool GaussianMixture::augmentWithNoise(const Eigen::Ref<const Eigen::MatrixXd>& 
     for (std::size_t i = 0; i < components; i++)
     {
         /* Copy the noise covariance matrix in the bottom-right block of each covariance matrix. */
-        covariance_.block(dim_old, i * dim_covariance + dim_old, dim_added, dim_added) = noise_covariance_matrix;
+        covariance_.block(dim_old, i * dim_covariance + dim_old, dim_added, dim_added) = noise_covariance;
 
         /* Clean part of the matrix that should be zero. */
         covariance_.block(0, i * dim_covariance + dim_old, dim_old, dim_added) = MatrixXd::Zero(dim_old, dim_added);
